@@ -110,9 +110,24 @@ Definition enc_qstate (q : qstate) : list nat :=
    Two kinds of closer steps are invisible and commute with every step of every other goroutine:
    passing `<-s.prepared` once the channel is closed (C0 -> C1; also C1 with no statement -> done), and
    the closing step of a closer that is inside Stmt.Close with no execution of its statement in flight
-   (while it is pending nobody can start one, so delaying it only delays).  When such a step is
-   enabled the search takes it alone.  The CALL of Stmt.Close (which a concurrent use can overtake) and
-   every step of the program goroutines still branch. *)
+   (while it is pending nobody can start one, so delaying it only delays).  The CALL of Stmt.Close is
+   observable only by a pool-level use of that very statement (X0): it commutes with everything when no
+   goroutine holds or can still fetch the statement (no entry in the map carries it; nobody is at P3 of
+   an entry carrying it, at P10/P10b/P10c with it, or at X0 with it).  When such a step is enabled the
+   search takes it alone.  A CALL of Stmt.Close that a concurrent use can overtake, and every step of
+   the program goroutines, still branch. *)
+Definition may_use (s : state) (st : nat) (th : thread) : bool :=
+  match t_pc th with
+  | P3 e => option_eqb Nat.eqb (e_stmt (ent s e)) (Some st)
+  | P10 _ st' | P10b _ st' | P10c _ st' | X0 st' => st' =? st
+  | _ => false
+  end.
+Definition no_user (s : state) (st : nat) : bool :=
+  negb (existsb (may_use s st) (s_thr s)) &&
+  match s_map s with
+  | Some m => negb (existsb (fun p => option_eqb Nat.eqb (e_stmt (ent s (snd p))) (Some st)) m)
+  | None => true
+  end.
 Definition eager_closer (q : qstate) (t : nat) : bool :=
   match nth_error (s_thr (q_s q)) t with
   | Some th =>
@@ -121,7 +136,8 @@ Definition eager_closer (q : qstate) (t : nat) : bool :=
     | None =>
       match t_pc th with
       | C0 e => e_done (ent (q_s q) e)
-      | C1 e => match e_stmt (ent (q_s q) e) with None => true | Some _ => false end
+      | C1 e => match e_stmt (ent (q_s q) e) with None => true | Some st => no_user (q_s q) st end
+      | D0 st => no_user (q_s q) st
       | _ => false
       end
     end
